@@ -35,7 +35,7 @@ class SectionRoundTrip:
     """stream sections of the header against an encoder written from the format description (bounded/sections.py)"""
 
     def __init__(self, prop):
-        self.name = "stream-sections-" + ("read" if prop == "C06" else "rewrite")
+        self.name = "stream-sections-" + ("read" if prop == "C06" else "rewrite")  # C07 and C08 share the rewrite phase
         self.props = (prop,)
         self.prop = prop
 
@@ -233,3 +233,4 @@ REGISTRY.scenarios.append(PathGates("C03"))
 REGISTRY.scenarios.append(PathGates("C16"))
 REGISTRY.scenarios.append(SectionRoundTrip("C06"))
 REGISTRY.scenarios.append(SectionRoundTrip("C08"))
+REGISTRY.scenarios.append(SectionRoundTrip("C07"))
